@@ -26,7 +26,7 @@ EVIDENCE = os.path.join(VERIF, "evidence")
 CORPUS = os.path.join(VERIF, "corpus")
 KNOWN = os.path.join(VERIF, "KNOWN_FINDINGS.txt")
 ALLOWED_AXIOMS = {"propext", "Classical.choice", "Quot.sound"}
-FORBIDDEN = r"\b(sorry|admit|native_decide|bv_decide|implemented_by|unsafe)\b|^axiom |maxHeartbeats 0"
+FORBIDDEN = r"\b(sorry|admit|native_decide|bv_decide|implemented_by)\b|^\s*(@\[[^\]]*\]\s*)?(private\s+|protected\s+)?unsafe\s|^\s*axiom\s|maxHeartbeats 0"
 
 ENV = dict(os.environ, CARGO_NET_OFFLINE="true", GOPROXY="off", PIP_NO_INDEX="1")
 
